@@ -112,14 +112,17 @@ RPOK(e) ==
         g == MayGarbage(e)
         M1 == IF e.emergency THEN R0
               ELSE SCl(R0 \cup ({Ref0(r) : r \in ext.tab[1] \cap R0} \ {Null}), objs)
-        X1 == IF e.emergency THEN R0 ELSE MayRetain(R0, g)
+        \* what the collection may treat as live: the garbage it does not examine, and everything that
+        \* garbage references (a nursery collection traces from remembered old objects, dead or not)
+        base == SCl(R0 \cup g, objs)
+        X1 == IF e.emergency THEN base ELSE MayRetain(base, {})
         candA == BagOf(rp.cand)
         readyA == BagOf(rp.ready)
         readyCl == SCl(DOMAIN readyA, objs)
         M2 == SCl(M1 \cup DOMAIN readyA, objs)
         X2 == SCl(X1 \cup DOMAIN readyA, objs)
         Must(k) == IF k = 3 THEN M2 ELSE M1
-        May(k) == (IF k = 3 THEN X2 ELSE X1) \cup g
+        May(k) == IF k = 3 THEN X2 ELSE X1
         nenq(r) == Cnt(ext.enq, r)
         cleared(r) == r \in DOMAIN ext.clr
         regs == BagSum(ext.cand, ext.ready)
@@ -178,7 +181,7 @@ RPOK(e) ==
     \* -- an object that is ready stays ready until it is popped
     /\ G("C06:ready-requeued", \A o \in DOMAIN ext.ready : B(readyA, o) >= ext.ready[o])
     \* -- every registration of an object found unreachable becomes ready
-    /\ G("C06:unreachable-not-ready", \A o \in DOMAIN ext.cand : o \notin (X1 \cup g) => B(candA, o) = 0)
+    /\ G("C06:unreachable-not-ready", \A o \in DOMAIN ext.cand : o \notin X1 => B(candA, o) = 0)
     \* -- reachable objects are never made ready
     /\ G("C06:reachable-made-ready", \A o \in DOMAIN readyA : o \in M1 => readyA[o] <= B(ext.ready, o))
     \* -- ready objects are retained with everything they reference (walk from MMTk's ready list)
@@ -219,6 +222,11 @@ CleanupOK ==
       (DOMAIN rp # {} /\ rp.pause = "Full" /\ ~rp.nursery) =>
           rp.soft = << >> /\ rp.weak = << >> /\ rp.phantom = << >> /\ rp.cand = << >> /\ rp.ready = << >>)
 
+\* vo_bit builds: MMTK::enumerate_objects also reports the objects MMTk itself keeps alive (the closure
+\* of the ready list, retained soft referents); HeapTrace's C07 guards compare the enumeration with the
+\* root-reachable set and do not apply to these programs. The per-node VO-bit report stays.
+NoEnum(e) == [k \in DOMAIN e \ {"enum", "enumBad", "deadProbes"} |-> e[k]]
+
 MyEvents == {"SetReferent", "AddCandidate", "GetReferent", "AddFinalizer", "PopFinalized",
              "GetAllFinalizers", "GetFinalizersFor", "ClearReferent", "EnqueueRefs"}
 
@@ -236,7 +244,7 @@ RStep(e) ==
             ELSE FailStep /\ ext' = [ExtInit EXCEPT !.st = ext.st]
       [] ext.quiet ->
             IF e.ev \in MyEvents THEN Skip /\ UNCHANGED ext
-            ELSE /\ Step(e)
+            ELSE /\ Step(IF e.ev = "GCEnd" THEN NoEnum(e) ELSE e)
                  /\ ext' = IF e.ev = "GCEnd" THEN [ext EXCEPT !.lastrp = e.rp @@ [nursery |-> e.nursery]]
                            ELSE ext
       [] e.ev = "SetReferent" -> Mine(SetReferentOK(e), [ext EXCEPT !.ref[e.ref] = e.tgt])
@@ -268,7 +276,7 @@ RStep(e) ==
       [] e.ev = "EnqueueRefs" -> Skip /\ ext' = [ext EXCEPT !.enq = @ \o e.refs]
       [] e.ev = "GCEnd" ->
             IF RPOK(e)
-            THEN /\ Step(e)
+            THEN /\ Step(NoEnum(e))
                  /\ ext' = IF failed' THEN ext ELSE Prune(AfterGC(e), objs')
             ELSE FailStep /\ UNCHANGED ext
       [] e.ev = "Alloc" ->
